@@ -98,6 +98,7 @@ def main():
     assumptions = ["machine arithmetic checked by Verus (no overflow in the generator)",
                    "canonical(f, .) is this project's formalisation of 'the unique sorted list of maximal inclusive ranges with scalar end points'"] + \
                   ["assumed/trusted item in generated Verus file: " + a for a in summ["assumption_scan"]]
+    rc = C.settle(rc, summ["discharged"] + (1 if info.get("searched") else 0))
     C.write_evidence(PROP, "proof", cov, assumptions, time.time() - t0, violations)
     for ln in lines:
         C.say(ln)
